@@ -9,6 +9,7 @@ import (
 	"go/types"
 	"runtime"
 	"sort"
+	"strings"
 
 	"golang.org/x/tools/go/ssa"
 )
@@ -144,5 +145,82 @@ func SortedKeys(m map[string]bool) []string {
 		out = append(out, k)
 	}
 	sort.Strings(out)
+	return out
+}
+
+// BlockCov is the block coverage of one function of the code under check.
+type BlockCov struct {
+	File   string `json:"file"`
+	Line   int    `json:"line"`
+	Lines  []int  `json:"lines"`  // first source line of each basic block (0 = none)
+	Hit    []bool `json:"hit"`    // executed at least once by this process
+	Called bool   `json:"called"` // the function was entered at all
+}
+
+// Coverage reports, for every function of github.com/coregx/* in the program, which basic blocks this process
+// has executed (set-up and harness runs alike, all paths).
+func (m *Machine) Coverage() map[string]*BlockCov {
+	out := map[string]*BlockCov{}
+	all := map[*ssa.Function]bool{}
+	var add func(fn *ssa.Function)
+	add = func(fn *ssa.Function) {
+		if fn == nil || all[fn] {
+			return
+		}
+		all[fn] = true
+		for _, a := range fn.AnonFuncs {
+			add(a)
+		}
+	}
+	for _, p := range m.Prog.AllPackages() {
+		if !strings.HasPrefix(p.Pkg.Path(), "github.com/coregx/") {
+			continue
+		}
+		for _, mem := range p.Members {
+			switch x := mem.(type) {
+			case *ssa.Function:
+				add(x)
+			case *ssa.Type:
+				if n, ok := x.Type().(*types.Named); ok {
+					for k := 0; k < n.NumMethods(); k++ {
+						add(m.Prog.FuncValue(n.Method(k)))
+					}
+				}
+			}
+		}
+	}
+	for fn := range m.i.infos { // instantiations and anything else that actually ran
+		add(fn)
+	}
+	for fn := range all {
+		if fn.Blocks == nil || !isCoregxFn(fn) {
+			continue
+		}
+		pos := m.Prog.Fset.Position(fn.Pos())
+		bc := &BlockCov{File: pos.Filename, Line: pos.Line, Lines: make([]int, len(fn.Blocks)), Hit: make([]bool, len(fn.Blocks))}
+		for bi, b := range fn.Blocks {
+			for _, ins := range b.Instrs {
+				if p := ins.Pos(); p.IsValid() {
+					bc.Lines[bi] = m.Prog.Fset.Position(p).Line
+					break
+				}
+			}
+		}
+		if inf, ok := m.i.infos[fn]; ok && inf.cov != nil {
+			copy(bc.Hit, inf.cov)
+			bc.Called = true
+		}
+		name := fn.String()
+		if o, ok := out[name]; ok { // instantiations of one generic: union
+			for k := range o.Hit {
+				if k < len(bc.Hit) && bc.Hit[k] {
+					o.Hit[k] = true
+				}
+			}
+			o.Called = o.Called || bc.Called
+			continue
+		}
+		out[name] = bc
+	}
 	return out
 }
